@@ -6,12 +6,14 @@ Definition tch_eqb (a b : tch) : bool :=
 
 Inductive top :=
 | TEdit (pf pt : tpos) (vals : list N) (t : ticket) (v : option vvec)
-| TLocal (i j : nat) (vals : list N) (t : ticket).   (* CreateRange(i, j) on this replica, then Edit *)
+| TLocal (i j : nat) (vals : list N) (t : ticket)    (* CreateRange(i, j) on this replica, then Edit *)
+| TPurge (tk : ticket) (off len : N).               (* RGATreeSplit.Purge of the run (tk, off) of that length *)
 
 Definition trun_op (o : top) (l : list tch) : option (list tch) :=
   match o with
   | TEdit pf pt vals t v => edit pf pt vals t v l
   | TLocal i j vals t => local_edit i j vals t l
+  | TPurge tk off len => Some (purge_run tk off len l)
   end.
 
 (* a step: the replica that executes the operation, the operation, whether the implementation
